@@ -194,6 +194,24 @@ func lazyCases() []*ProgCase {
 			}
 		}
 	}
+	// strict harness functions with many parameters: every argument once, left to right
+	for _, n := range []int{4, 5, 6, 9, 17} {
+		args := make([]*ref.E, n)
+		for i := range args {
+			args[i] = tr(fmt.Sprintf("a%d", i), ref.Num(fmt.Sprint(i), float64(i)))
+		}
+		e := ref.Call("many", args...)
+		out = append(out, &ProgCase{ID: fmt.Sprintf("lazy/many/%d", n), Src: ref.Render(e), E: e, Env: env, User: append(ref.UserFuns(), ref.Many(n))})
+		args2 := make([]*ref.E, n)
+		for i := range args2 {
+			args2[i] = ref.Num(fmt.Sprint(i), float64(i))
+			if i%2 == 1 || i == n-1 {
+				args2[i] = ref.Call("lzIf", tr(fmt.Sprintf("c%d", i), ref.Bool(i%4 == 1)), tr(fmt.Sprintf("t%d", i), ref.Num("1", 1)), tr(fmt.Sprintf("e%d", i), ref.Num("2", 2)))
+			}
+		}
+		e2 := ref.CallF(ref.FInfix, "+", ref.Call("many", args2...), tr("after", ref.Num("0", 0)))
+		out = append(out, &ProgCase{ID: fmt.Sprintf("lazy/many-mixed/%d", n), Src: ref.Render(e2), E: e2, Env: env, User: append(ref.UserFuns(), ref.Many(n))})
+	}
 	// overload sets whose members differ in evaluation strategy
 	{
 		n := func(i int) *ref.E { return ref.Num(fmt.Sprint(i), float64(i)) }
